@@ -35,7 +35,7 @@ _CFG = {"items": 60, "seeds": 7, "randoms": 2, "perms": 6}
 
 def budgets(tier):
     if tier == "quick":
-        return {"core": 1, "frontier": 0, "shards": 1, "items": 60, "seeds": 7, "randoms": 2, "perms": 6}
+        return {"core": 3, "frontier": 0, "shards": 1, "items": 60, "seeds": 7, "randoms": 2, "perms": 6}
     return {"core": 24, "frontier": 0, "shards": 4, "items": 40, "seeds": 31, "randoms": 4, "perms": 12}
 
 
@@ -58,7 +58,9 @@ def _item(draw):
         allp = case["args"] + case["kwonly"]
         undocumented = len([p for p in allp if p["name"] not in case["documented"]])
         return {"type": "definition", "kind": case["kind"], "source": c07.render(case), "undocumented": undocumented}
-    return {"type": "ir", "ir": draw(domain.ir_strategy(allowed=ALL_KNOBS, max_params=5))}
+    # shapes whose conversion goes through a set / frozenset of strings are forced into a third of the descriptions
+    forced = draw(st.sampled_from((None, None, "mixed_literal", "union_with_str", "int_literal", "undocumented_param")))
+    return {"type": "ir", "ir": draw(domain.ir_strategy(allowed=ALL_KNOBS, forced=forced, max_params=5))}
 
 
 @st.composite
